@@ -32,37 +32,37 @@ static std::vector<CheckSpec> make_specs() {
     auto add = [&](const char *prop, const char *level, std::vector<Batch> q, std::vector<Batch> t, const char *rule, std::vector<std::string> assume) {
         CheckSpec s; s.prop = prop; s.level = level; s.quick = q; s.thorough = t; s.rule = rule; s.assumptions = assume; s.real_components = REAL; s.simulated_components = SIMULATED; v.push_back(s);
     };
-    add("C06", "exploration", {{"nav", 200000}}, {{"nav", 6000000}},
+    add("C06", "exploration", {{"nav", 400000}}, {{"nav", 6000000}},
         "each run: a seeded valid document (reference encoder) and a seeded history of up to 80 (thorough: 120) protocol-following enter/step/leave/observe/raw calls chosen among those the reference cursor enables; every call's result, get_depth, getters and (after leave/raw) the cursor are compared with the reference cursor. non-trivial = at least one container was skipped, left early or raw-extracted; distinct = distinct plan digests (document bytes + operations)",
         {"the reference cursor and encoder in /verif/sim/model.cpp + eng_nav.cpp are correct (small, independent of the library)", "sampling: a clean batch is evidence, not proof"});
-    add("C07", "exploration", {{"nav", 200000}}, {{"nav", 6000000}},
+    add("C07", "exploration", {{"nav", 400000}}, {{"nav", 6000000}},
         "nav engine with field lookups (field, field_with_length, field_ensure, field_ensure_with_length) interleaved with navigation; searched names: present at/after the cursor, present before it, absent between, proper prefix, one-byte extension, previous query, absent after, just below a present name; result, cursor after a miss (must be the first field with a greater name) and getters are compared with the reference scan. non-trivial = a lookup ran while a container was pending or a container was skipped/left early; a divergence is attributed to C07 only if the minimised history still contains a lookup",
         {"reference cursor correct", "sampling"});
-    add("C11", "exploration", {{"nav", 200000}}, {{"nav", 6000000}},
+    add("C11", "exploration", {{"nav", 400000}}, {{"nav", 6000000}},
         "nav engine with get_raw / parser_to_writer at any position after any navigation history; span, standalone validity (real verify on a fresh parser), bytes appended to an exact-size writer, cursor afterwards; on scalars both must return false and change nothing. non-trivial = at least one container raw-extracted/skipped/left early; attributed to C11 only if the minimised history still contains raw/towriter",
         {"reference cursor correct", "sampling"});
-    add("C01", "exploration", {{"sloppy", 250000}}, {{"sloppy", 8000000}},
+    add("C01", "exploration", {{"sloppy", 500000}}, {{"sloppy", 8000000}},
         "each run: delivered bytes = valid / truncated / corrupted / random document in an exact-size heap block, parser struct and state array of exactly max_depth entries pre-filled with PRNG garbage, 1..60 calls over the whole public parser API with return values ignored (lookups only while structurally inside an object). oracle: no ASan/UBSan report, every returned span inside the delivered block, buffer unchanged. non-trivial = at least 3 calls returned true or an error class other than init rejection was reached",
         {"ASan/UBSan detect the out-of-bounds accesses (exact-size heap blocks, no slack)", "sampling"});
-    add("C09", "exploration", {{"sloppy", 200000}, {"capacity", 1500}}, {{"sloppy", 6000000}, {"capacity", 60000}},
+    add("C09", "exploration", {{"sloppy", 300000}, {"capacity", 2500}}, {{"sloppy", 6000000}, {"capacity", 60000}},
         "parser: sloppy workload, latch monitor over the recorded history - after the first call that sets an error, every advancing call returns false, every getter is neutral, the flag stays set until init/reset/verify(print,to_string). writer: capacity sweep places the first failing write at every position, arbitrary further writes follow: all false, nothing stored, counter keeps matching the reference size. non-trivial = at least one call was made after an error had been latched",
         {"sampling"});
     add("C16", "exploration", {{"sloppy", 150000}, {"traverse", 60000}, {"nav", 60000}, {"capacity", 400}, {"tostring", 400}}, {{"sloppy", 5000000}, {"traverse", 2000000}, {"nav", 2000000}, {"capacity", 15000}, {"tostring", 15000}},
         "every API call of every run executes under a per-call budget of len+16 token callbacks (exceeding it aborts the call: deterministic liveness violation) and a 10 s CPU watchdog; per call: callbacks <= bytes advanced + 2; verify: callbacks <= len + 2. non-trivial = the run made at least 3 token callbacks",
         {"callback-free loops (writer calls, print / to_string formatting loops) are only seen by the CPU watchdog", "sampling"});
-    add("C08", "exploration", {{"traverse", 250000}}, {{"traverse", 8000000}},
+    add("C08", "exploration", {{"traverse", 500000}}, {{"traverse", 8000000}},
         "valid document, then 0-3 in-transit faults (truncate, flip/substitute, swap/dup/drop/insert, torn prefix, too-small max_depth); an adaptive complete traversal (enter/skip/lookup/early leave/get_raw/to_writer chosen by PRNG, seeing only the parser's answers) must end with all calls successful and error NONE iff binson_parser_verify on a fresh parser accepts the same bytes. non-trivial = a container was skipped, raw-extracted or left early",
         {"both sides are real code: no model involved", "sampling"});
-    add("C04", "fault_enumeration", {{"capacity", 3000}}, {{"capacity", 120000}},
+    add("C04", "fault_enumeration", {{"capacity", 5000}}, {{"capacity", 120000}},
         "each run: a seeded write-call sequence (1-40 calls over all writer entry points, well-formed or token soup); the out-of-space fault is enumerated: the sequence is re-run for every capacity 0..S+3 (S<=4096; boundary-biased sample beyond) into an exact-size pattern-filled heap destination; counter == reference size, error == RANGE iff S > c, dest is the prefix of the reference encoding up to the first piece that does not fit, rest untouched, retry with the reported size succeeds. non-trivial = at least one capacity cut a token in the middle; evaluations counts (sequence,capacity) pairs in counters.capacity_points",
         {"reference encoder defines exact size and pieces", "capacity axis exhaustive only for S <= 4096"});
-    add("C13", "fault_enumeration", {{"tostring", 2500}}, {{"tostring", 100000}},
+    add("C13", "fault_enumeration", {{"tostring", 6000}}, {{"tostring", 100000}},
         "each run: a seeded document (valid, or corrupted for the returns-false half); N := size from the NULL query; to_string is re-run for every capacity 0..N+3 into an exact-size pattern-filled heap block: c<N false and *size==N for every c, c>=N true, *size==N-1, NUL at N-1, identical text for all c>=N, never a store at or beyond c. non-trivial = valid document whose text is longer than 8 bytes",
         {"self-consistency oracle + ASan; the rendering itself (C14) is not judged"});
-    add("C12", "exploration", {{"reuse", 150000}}, {{"reuse", 5000000}},
+    add("C12", "exploration", {{"reuse", 300000}}, {{"reuse", 5000000}},
         "phase A (any sloppy/protocol history on document A) is abandoned at a random step, optionally struct+state array are scribbled, then restart by init_object/init_array (new buffer or rewritten in place), reset or verify, then phase B; the same restart+phase B runs on a fresh object; the two event logs must be identical. writer: init/reset after arbitrary writes behaves like fresh. non-trivial = phase A made progress (>=2 successful calls) before the crash point",
         {"differential against the real code: no model", "sampling"});
-    add("C15", "fault_enumeration", {{"cppwrap", 6000}}, {{"cppwrap", 250000}},
+    add("C15", "fault_enumeration", {{"cppwrap", 12000}}, {{"cppwrap", 250000}},
         "fault-free: random trees -> put -> serialize == reference encoding; three deserialize overloads -> structural equality; arbitrary bytes: returns normally iff verify(depth 10) accepts, else std::exception. fault-injecting: the k-th operator new inside a Binson call throws for every k (sampled above 300): std::exception or correct completion, never crash/leak. non-trivial = tree with >= 3 nodes or corrupted bytes of length >= 2",
         {"reference encoder", "allocation-failure axis exhaustive per operation up to 300 allocations"});
     add("C17", "exploration", {{"interleave", 6000}, {"sloppy", 40000}, {"nav", 30000}, {"traverse", 20000}, {"reuse", 10000}, {"capacity", 300}, {"tostring", 300}},
